@@ -1220,7 +1220,26 @@ def probe_plain_shapes(blocks):
     return [ni, nb, ns] + na + nf
 
 
+def probe_array_memory_layouts(blocks):
+    """Array values that are NOT C-contiguous in memory (a transposed view such as fluxByGroupAndPin.T, a Fortran-ordered
+    array, a strided / reversed view): what is stored and loaded is the LOGICAL array.  One parameter is ragged over
+    the blocks (different shapes: the jagged path), the other has one shape for all blocks (the plain dataset path)."""
+    na = candidate_params(blocks, "array")[:2]
+    if len(na) < 2:
+        raise LookupError("needs two array parameters")
+    for i, b in enumerate(blocks):
+        rows, cols = 2 + i % 2, 3 + i % 3
+        table = np.arange(1.0, rows * cols + 1.0).reshape(cols, rows) + 100.0 * i
+        big = np.arange(1.0, 4 * 6 + 1.0).reshape(4, 6) + 1000.0 * i
+        ragged = [table.T, np.asfortranarray(table.T.copy()), big[1::2, ::2], table.T[::-1, ::-1]][i % 4]
+        assert not ragged.flags["C_CONTIGUOUS"]
+        b.p[na[0]] = ragged
+        b.p[na[1]] = [np.asfortranarray(np.arange(6.0).reshape(2, 3) + i), (np.arange(6.0).reshape(3, 2) + i).T][i % 2]
+    return na
+
+
 PROBES = {
+    "array-memory-layouts": probe_array_memory_layouts,
     "all-none-column": probe_all_none, "nan-and-none-column": probe_nan_and_none, "nan-inf-negzero": probe_nan_only,
     "jagged-with-empty": probe_jagged_with_empty, "str-non-ascii": probe_str_non_ascii,
     "str-column-with-none": probe_str_column_with_none, "array-with-none-element": probe_array_with_none_element,
